@@ -159,7 +159,7 @@ Qed.
 Lemma backup_touch_iff_lemma b n o f :
   (e_ops (emit FilesWithBackup b n o f) <> [] <-> o <> f) /\
   (o <> f -> e_ops (emit FilesWithBackup b n o f) =
-             [Write (tmp_of n) f; Rename n (bk_of n); Rename (tmp_of n) n]).
+             [Remove (tmp_of n); Write (tmp_of n) f; Rename n (bk_of n); Rename (tmp_of n) n]).
 Proof.
   cbn. unfold e_ops, backup_ops; cbn. destruct (eqb_text o f) eqn:E.
   - apply eqb_text_spec in E. repeat split; intros H; try contradiction; try reflexivity.
@@ -234,13 +234,13 @@ Lemma stdout_is_formatted_lemma b n o f :
   emit Stdout b n o f = ([], OutText (negb (b_quiet b)) f, false) /\
   (forall x, In x (e_ops (emit Files b n o f)) -> x = Write n f) /\
   (forall x, In x (e_ops (emit FilesWithBackup b n o f)) ->
-             x = Write (tmp_of n) f \/ x = Rename n (bk_of n) \/ x = Rename (tmp_of n) n).
+             x = Remove (tmp_of n) \/ x = Write (tmp_of n) f \/ x = Rename n (bk_of n) \/ x = Rename (tmp_of n) n).
 Proof.
   split; [reflexivity|]. split.
   - intros x. rewrite files_ops_eq. destruct (eqb_text o f); cbn; intros H; [contradiction|].
     destruct H as [H|H]; [auto|contradiction].
   - intros x. cbn. unfold e_ops, backup_ops; cbn. destruct (eqb_text o f); cbn; intros H; [contradiction|].
-    destruct H as [H|[H|[H|H]]]; auto. contradiction.
+    destruct H as [H|[H|[H|[H|H]]]]; auto. contradiction.
 Qed.
 
 (* the modified-lines report determines the formatted LINES (not the terminators) *)
